@@ -165,6 +165,7 @@ struct Op
     uint8_t rngq{0};    // rr: generator quantile forced for this call
     uint8_t dev{0};     // 1 = this Advance is a sub-millisecond deviation (costs budget)
     int16_t key[MAXR]{0, 0, 0};
+    int64_t ttl_big{0}; // != 0: tlru single insert uses this ttl (ms) instead of ttl[0] (mass scripts; not serialised)
     int16_t span{0};    // > 0: a long range over the keys 1..span (key[] unused; wid[0]+i, ttl[0] per element)
     int8_t  ttl[MAXR]{0, 0, 0}; // ms; tlru per element; UpdateTtl: ttl[0]
     int32_t wid[MAXR]{0, 0, 0}; // write ids (assigned by the engine; not part of the state key)
